@@ -4,6 +4,8 @@ Settings come from the real SettingsSchema (so its validation rules apply);
 the gate functions under test (handle_comments, check_approvals,
 check_build_status, jira_checks, early_checks, ...) are the real ones.
 """
+import os
+
 from bert_e.job import PullRequestJob
 from bert_e.settings import SettingsSchema
 from bert_e.workflow import gitwaterflow as gwf
@@ -139,6 +141,7 @@ class StubGitRepo:
 
 
 class StubBertE:
+    """kept for harness code that only needs a settings holder"""
     def __init__(self, settings, git_repo=None):
         self.settings = settings
         self.client = StubClient()
@@ -146,18 +149,44 @@ class StubBertE:
         self.git_repo = git_repo or StubGitRepo()
 
 
-_last_cmdline = [None]
+_cmdline = [()]
+_mock_ready = [False]
 
 
 def set_cmd_line_options(options):
-    """What BertE.__init__ does with settings.cmd_line_options (real
-    gwf.setup); cached because it re-registers every option."""
-    key = tuple(sorted(options))
-    if _last_cmdline[0] != key:
-        gwf.setup({k: True for k in key})
-        _last_cmdline[0] = key
+    """Options given on the command line: recorded here and handed to the
+    real BertE.__init__ (which calls gwf.setup with them) by make_job."""
+    _cmdline[0] = tuple(sorted(options))
+
+
+def real_berte(settings):
+    """A REAL BertE instance (real __init__ on the mock git host, so every
+    attribute the constructor creates exists), 112 us; its collaborators that
+    would need a repository are replaced by the stubs afterwards."""
+    import atexit
+    import shutil
+    import tempfile
+    from bert_e.bert_e import BertE
+    from bert_e.git_host import client_factory, mock
+    if not _mock_ready[0]:
+        from vf.common import env
+        if tempfile.tempdir is None or not os.path.isdir(tempfile.tempdir):
+            d = env.mkscratch('vf-stub-')
+            tempfile.tempdir = d
+            atexit.register(shutil.rmtree, d, True)
+        if ('owner', 'slug') not in mock.Repository.repos:
+            client_factory('mock', LEAD, 'pw', 'x@x.invalid') \
+                .create_repository(slug='slug', owner='owner')
+        _mock_ready[0] = True
+    settings['cmd_line_options'] = list(_cmdline[0])
+    berte = BertE(settings)
+    berte.git_repo.delete()
+    return berte
 
 
 def make_job(settings, pr, git_repo=None):
-    berte = StubBertE(settings, git_repo)
+    berte = real_berte(settings)
+    berte.client = StubClient()
+    berte.project_repo = StubProjectRepo()
+    berte.git_repo = git_repo or StubGitRepo()
     return PullRequestJob(bert_e=berte, pull_request=pr)
